@@ -315,6 +315,10 @@ func RunSeed(base uint64, prop string, idx uint64) uint64 {
 }
 
 func RunWorker(cfg WorkerCfg) *WorkerOut {
+	KnownClasses = cfg.Known
+	if KnownClasses == nil {
+		KnownClasses = map[string]bool{}
+	}
 	p := Props[cfg.Prop]
 	out := &WorkerOut{Property: cfg.Prop, Worker: cfg.Worker, Faults: map[string]int{}, Probes: map[string]int{},
 		Notes: map[string]int{}, Truncated: map[string]int{}, HeightsHist: map[string]int{}}
